@@ -36,7 +36,13 @@ def references():
 LIN = {"lin1": 1, "lin2": 2, "lin3": 3}     # formula kernels (harness/cxx2lin.py): the specialised branches of linear.hpp
 
 
+RIMP = ("matmul", "identity", "affine_apply", "translation", "scaling")     # harness/cxx2rimp.py
+
+
 def _translate(k):
+    if k in RIMP:
+        from harness import cxx2rimp
+        return cxx2rimp.translate(str(C.REPO), k)
     if k in LIN:
         from harness import cxx2lin
         return cxx2lin.translate(str(C.REPO), LIN[k]), {"scalars": [], "arrays": []}
@@ -44,6 +50,9 @@ def _translate(k):
 
 
 def _where(k):
+    if k in RIMP:
+        from harness import cxx2rimp
+        return cxx2rimp.KERNELS[k][1]
     return f"backend/transformer/linear.hpp at(), {LIN[k]}-D branch" if k in LIN else _where(k)
 
 
